@@ -105,12 +105,12 @@ API = {
                              pos=[("protocal", "protocol", 4), ("t_length", "t_length", 2), ("byte_block", "byte_block", 1), ("t_dir", "t_dir", 1),
                                   ("t_type", "t_type", 1), ("off_line", "off_line", 2), ("fetures", "features", 8), ("count", "count", 8),
                                   ("lba", "ATA_LBA", 24), ("command", "command", 8)],
-                             opt={"ck_cond": ("ck_cond", 1), "device": ("device", 8), "control": ("control", 8), "blocksize": (None, 0), "extra_tl": (None, 0)}),
+                             opt={"ck_cond": ("ck_cond", 1), "device": ("device", 8), "control": ("control", 8), "blocksize": (None, 0), "extra_tl": (None, 0), "data": (None, 0)}),
     "atapassthrough16": dict(t10="ATA_PASS_THROUGH_16", opname="ATA_PASS_THROUGH_16", ata=16,
                              pos=[("protocal", "protocol", 4), ("t_length", "t_length", 2), ("byte_block", "byte_block", 1), ("t_dir", "t_dir", 1),
                                   ("t_type", "t_type", 1), ("off_line", "off_line", 2), ("fetures", "features", 16), ("count", "count", 16),
                                   ("lba", "ATA_LBA", 48), ("command", "command", 8)],
-                             opt={"ck_cond": ("ck_cond", 1), "device": ("device", 8), "control": ("control", 8), "extend": ("extend", 1), "blocksize": (None, 0), "extra_tl": (None, 0)}),
+                             opt={"ck_cond": ("ck_cond", 1), "device": ("device", 8), "control": ("control", 8), "extend": ("extend", 1), "blocksize": (None, 0), "extra_tl": (None, 0), "data": (None, 0)}),
     "persistentreservein": dict(t10="PERSISTENT_RESERVE_IN", opname="PERSISTENT_RESERVE_IN", pos=[("service_action", "service_action", 2)], opt={"alloclen": ("alloc", 15)}),
     "persistentreserveout": dict(t10="PERSISTENT_RESERVE_OUT", opname="PERSISTENT_RESERVE_OUT", pos=[("service_action", "service_action", 3)],
                                  opt={"scope": ("scope", 4), "pr_type": ("pr_type", 4)}, plist=True, extra_kw="prout"),
@@ -226,6 +226,8 @@ def gen_args(rng, method, subset=None):
             subset = [n for n in names if rng.random() < rng.choice([0.1, 0.5, 0.9])]
     kw = {}
     for n in subset:
+        if doc[n] == "data":
+            continue
         field, bits = a["opt"][doc[n]]
         if doc[n] in ("alloclen", "alloc_len"):
             kw[n] = rng.choice([0, 4, 8, 24, 36, 96, 255]) if bits <= 8 else rng.choice([0, 4, 8, 24, 36, 96, 255, 256, 1024, (1 << bits) - 1])
@@ -261,6 +263,9 @@ def gen_args(rng, method, subset=None):
         kw.update(F.g_xcopy5(rng, None)[1])
     if method in ("modeselect6", "modeselect10"):
         pos["data"] = F.g_modeselect(rng, None)[0][0]
+    if method.startswith("atapassthrough") and "data" in doc and rng.random() < 0.4:
+        # the documented data= argument: the caller's own buffer (any writable bytes-like object) for the data phase
+        kw["data"] = {"$buffer": rng.choice(["bytearray", "bytearray", "memoryview", "array"]), "n": rng.choice([512, 512, 16, 1024])}
     if method.startswith("atapassthrough"):
         need_bs = pos["byte_block"] and pos["t_type"] and pos["t_length"]
         if need_bs and not kw.get("blocksize"):
@@ -272,7 +277,7 @@ def gen_one(rng, method=None, setname=None):
     method = method or rng.choice(METHODS)
     pos, kw = gen_args(rng, method)
     op = {"cfg": {"method": method, "set": setname or rng.choice(sets_of(method)), "device": rng.choice(["plain", "plain", "sgio", "iscsi"]),
-                  "blocksize": rng.choice([512, 512, 1, 4096]), "nonce": rng.randrange(1 << 32)},
+                  "blocksize": rng.choice([512, 512, 1, 4096]), "nonce": rng.randrange(1 << 32) & (~0xF if rng.random() < 0.08 else ~0)},
           "pos": pos, "kw": kw, "reattach": rng.random() < 0.6}
     if op["cfg"]["device"] != "plain" and rng.random() < 0.2:
         # the device fails this command: it must still have been handed over exactly once
@@ -365,7 +370,7 @@ class PlainDevice:
         status, sense, datain = self.lu.execute(bytes(cmd.cdb), bytes(cmd.dataout) if cmd.dataout is not None else b"", len(din) if din is not None else 0)
         if din is not None:
             n = min(len(datain), len(din))
-            din[:n] = datain[:n]
+            memoryview(din)[:n] = datain[:n]
 
     def open(self):
         pass
@@ -521,12 +526,22 @@ def execute(prog):
             "summary": summaries[0] if len(summaries) == 1 else summaries, "events_tail": WORLD.events[-4:]}
 
 
+def _buffers(kw):
+    import array
+    d = kw.get("data")
+    if isinstance(d, dict) and "$buffer" in d:
+        raw = bytearray(F.pattern(7, d["n"]))
+        kw["data"] = raw if d["$buffer"] == "bytearray" else memoryview(raw) if d["$buffer"] == "memoryview" else array.array("B", raw)
+        WORLD.probe("caller_buffer_" + d["$buffer"])
+    return kw
+
+
 def _one_call(cfg, op, ctx):
     import pyscsi.pyscsi.scsi_enum_command as E
     SCSI, SCSIDevice, ISCSIDevice = worlds.lib()
     method, setname, device = cfg["method"], cfg["set"], cfg["device"]
     a = API[method]
-    pos, kw = copy.deepcopy(op["pos"]), F.real_args(copy.deepcopy(op["kw"]))
+    pos, kw = copy.deepcopy(op["pos"]), _buffers(F.real_args(copy.deepcopy(op["kw"])))
     dev_type = SET_TYPE[setname]
     dev, lu, handed = _device_for(ctx, device, setname)
     del handed[:]
@@ -571,6 +586,9 @@ def _one_call(cfg, op, ctx):
     t10 = a["t10"]
 
     def script(cdb, dataout, xfer_in):
+        if nonce % 16 == 0:
+            WORLD.probe("all_zero_answer")
+            return bytes(max(xfer_in, 0))     # a legal answer may consist of zero bytes only (no keys registered, empty lists, LBA 0 ...)
         f = C.decode(t10, cdb) if len(cdb) == (C.cdb_len(C.LAYOUTS[t10]["opcode"]) or 0) else {}
         return response_for(method, f, cdb, nonce, xfer_in, dev_type)[:max(xfer_in, 0)]
 
@@ -692,12 +710,19 @@ def _one_call(cfg, op, ctx):
             if getattr(cmd, attr) is not seen:
                 V.append(dict(oracle="C13.identity", where=where, detail=attr,
                               expected="cmd.%s is the buffer the device was given" % attr, actual="a different object"))
+    if device != "plain":
+        for attr, key in (("datain", "binding_data_in_obj"), ("dataout", "binding_data_out_obj")):
+            buf = getattr(cmd, attr)
+            seen_b = d.get(key)
+            if buf is not None and len(buf) and seen_b is not buf:
+                V.append(dict(oracle="C13.identity", where=where, detail="binding-" + attr,
+                              expected="the transport binding is given cmd.%s itself" % attr, actual="it received another object (%s)" % type(seen_b).__name__))
     if bytes(cmd.cdb) != cdb:
         V.append(dict(oracle="C13.identity", where=where, detail="cdb-bytes", expected="cmd.cdb == CDB sent", actual="%s vs %s" % (bytes(cmd.cdb).hex(), cdb.hex())))
     # 5. decoding happened after execute, on what the device left
     final = bytes(cmd.datain) if cmd.datain is not None else b""
     if d.get("inlen", len(final)) and device != "plain":
-        exp = response_for(method, C.decode(t10, cdb) if len(cdb) == want_len else {}, cdb, nonce, len(final), dev_type)[:len(final)]
+        exp = bytes(len(final)) if nonce % 16 == 0 else response_for(method, C.decode(t10, cdb) if len(cdb) == want_len else {}, cdb, nonce, len(final), dev_type)[:len(final)]
         if final[:len(exp)] != exp:
             V.append(dict(oracle="C13.buffer-not-filled", where=where, detail="datain",
                           expected="cmd.datain holds the device's data", actual="first bytes %s, device sent %s" % (final[:8].hex(), exp[:8].hex())))
